@@ -107,6 +107,17 @@ def annotations(tier):
                     iso["U1"] = ("chr2", strand, ex, "G2")
                 n += 1
                 out.append(("a%d" % n, w, iso, {"spec": spec, "strand": strand, "second": second}))
+    # the single-isoform annotation with 20 genomic A's (T's on '-') inside the 3' terminal exon, ending 100 bp before the transcript end:
+    # a read truncated there ends in an A-rich stretch of the GENOME, not in a tail
+    for strand in "+-":
+        ex = isoform_exons(1000, tuple(range(nslots)))
+        e3 = ex[-1] if strand == "+" else ex[0]
+        patch = ["chr1", e3[1] - 100 - 19, "A" * 20] if strand == "+" else ["chr1", e3[0] + 100, "T" * 20]
+        w = {"chroms": {"chr1": 12000, "chr2": 7000}, "sites": [], "reads": [], "patches": [patch],
+             "genes": [{"id": "G1", "chr": "chr1", "strand": strand, "transcripts": [{"id": "T1", "exons": [list(e) for e in ex]}]}]}
+        n += 1
+        out.append(("a%d" % n, w, {"T1": ("chr1", strand, ex, "G1")}, {"spec": "genomic-a-run", "strand": strand, "second": None,
+                                                                         "arun": (e3[1] - 100) if strand == "+" else (e3[0] + 100)}))
     # a gene nested in the last intron of another gene; reads exist for the host's SHORT isoform (first two exons) and for the nested gene
     # only, so they form two separate read clusters: the first overlaps the host gene alone, the second the host and the nested gene
     for strand in "+-":
@@ -419,7 +430,8 @@ def case(args):
         if r["T"] not in comp:
             raise core.HarnessError("reference model says derived read %s %s is not compatible with its own isoform" % (nm, r))
         if atype not in CONSISTENT:
-            errs.append(("positive-inconsistent:" + kinds, "read derived from %s by %s (blocks %s) is reported %s (%s)" %
+            at_run = meta.get("arun") is not None and meta["arun"] in (r["blocks"][-1][1], r["blocks"][0][0])
+            errs.append(("positive-inconsistent:" + kinds + (":ends-at-genomic-a-run" if at_run else ""), "read derived from %s by %s (blocks %s) is reported %s (%s)" %
                          (r["T"], list(r["devs"]), r["blocks"], atype, rr[0]["assignment_events"]), nm))
             continue
         if not reported <= comp:
